@@ -47,6 +47,24 @@ type world struct {
 	listeners []*TCPListener
 	conns     []*TCPConn
 	stepCtr   int
+	addrs     []addrObj // one scheduler object per address: dials and the listener's accepts act on the same object
+}
+
+type addrObj struct {
+	addr string
+	id   int
+}
+
+//go:norace
+func (x *world) objOf(addr string) int {
+	for _, a := range x.addrs {
+		if a.addr == addr {
+			return a.id
+		}
+	}
+	id := vs.NewObj()
+	x.addrs = append(x.addrs, addrObj{addr, id})
+	return id
 }
 
 var w = &world{}
@@ -99,12 +117,12 @@ func ListenTCP(network string, laddr *TCPAddr) (*TCPListener, error) {
 //go:norace
 func listen(a string) (*TCPListener, error) {
 	if vs.Active() {
-		vs.Yield("listen", 0)
+		vs.Yield("listen", w.objOf(a))
 	}
 	if w.find(a) != nil {
 		return nil, &net.OpError{Op: "listen", Net: "tcp", Err: syscall.EADDRINUSE}
 	}
-	l := &TCPListener{id: vs.NewObj(), addr: a}
+	l := &TCPListener{id: w.objOf(a), addr: a}
 	w.listeners = append(w.listeners, l)
 	return l, nil
 }
@@ -165,6 +183,52 @@ type TCPConn struct {
 	ReadsDone  int // number of Read calls that returned data
 	// FailWrites: let writes fail (as an explorer choice) once the peer is gone
 	FailWrites bool
+	// Owner / OwnerSeq identify the connection independently of the dial order: name of the dialling thread and
+	// how many connections it had dialled before
+	Owner    string
+	OwnerSeq int
+}
+
+// Digest summarises the connection's state for the explorer's state cache (bytes written and pending, flags).
+//
+//go:norace
+func (c *TCPConn) Digest() uint64 {
+	h := uint64(14695981039346656037)
+	mix := func(b byte) { h ^= uint64(b); h *= 1099511628211 }
+	for i := 0; i < len(c.Owner); i++ {
+		mix(c.Owner[i])
+	}
+	mix(byte(c.OwnerSeq))
+	for _, o := range c.Out {
+		for _, b := range o.Data {
+			mix(b)
+		}
+		if o.Failed {
+			mix(0xF1)
+		} else {
+			mix(0xF0)
+		}
+	}
+	mix(0xEE)
+	for _, ch := range c.in {
+		for _, b := range ch {
+			mix(b)
+		}
+		mix(0xED)
+	}
+	fl := byte(0)
+	if c.peerClosed {
+		fl |= 1
+	}
+	if c.peerReset {
+		fl |= 2
+	}
+	if c.closed {
+		fl |= 4
+	}
+	mix(fl)
+	mix(byte(c.ReadsDone))
+	return h
 }
 
 //go:norace
@@ -276,6 +340,14 @@ func (d dialWaiter) Ready() bool { return w.find(d.addr) != nil }
 //go:norace
 func NewConn() *Peer {
 	c := &TCPConn{id: vs.NewObj(), Index: len(w.conns)}
+	if t := vs.Self(); t != nil {
+		c.Owner = t.Name
+		for _, o := range w.conns {
+			if o.Owner == c.Owner {
+				c.OwnerSeq++
+			}
+		}
+	}
 	w.conns = append(w.conns, c)
 	return &Peer{C: c}
 }
@@ -284,9 +356,18 @@ func NewConn() *Peer {
 //
 //go:norace
 func Dial(addr string) *Peer {
-	vs.Block(&vs.Op{Kind: "dial", W: dialWaiter{addr}})
+	// the dial appends to the listener's queue: it is an access to the object of that address
+	vs.Block(&vs.Op{Kind: "dial", Obj: w.objOf(addr), W: dialWaiter{addr}})
 	l := w.find(addr)
 	c := &TCPConn{id: vs.NewObj(), Index: len(w.conns)}
+	if t := vs.Self(); t != nil {
+		c.Owner = t.Name
+		for _, o := range w.conns {
+			if o.Owner == c.Owner {
+				c.OwnerSeq++
+			}
+		}
+	}
 	w.conns = append(w.conns, c)
 	l.queue = append(l.queue, c)
 	return &Peer{C: c}
